@@ -71,6 +71,14 @@ let fmt_cmd (cmd : string) (f : M.format) (a : string array) : string =
   | "PF" -> out vbits (M.parse_float c t bt lim f b (bytes_of a.(0)) (bytes_of a.(1)) (dec a.(2)))
   | "PFA" -> out (fun v -> vbits v ^ " A 0") (M.parse_float c t bt lim f b (bytes_of a.(0)) (bytes_of a.(1)) (dec a.(2)))
   | "PFI" -> out vbits (M.parse_float c t bt lim f b (bytes_of a.(1)) (bytes_of a.(2)) (dec a.(3)))
+  | "PTH" ->
+      out (fun s -> s)
+        (M.bind (M.parse_number b (bytes_of a.(0)) (bytes_of a.(1)) (dec a.(2))) (fun num ->
+         M.bind (M.try_fast_path c t f b num) (fun r ->
+           match r with
+           | Some _ -> M.Ok "T F"
+           | None -> M.bind (M.moderate_path c t bt f b num) (fun fp ->
+               M.Ok (if Z.sign (zc fp.M.exp) < 0 then "T S" else "T M")))))
   | "IFP" -> "B " ^ b01 (M.is_fast_path f (number a.(0) a.(1) a.(2)))
   | "FP" -> out (function Some v -> vbits v | None -> "NONE") (M.try_fast_path c t f b (number a.(0) a.(1) a.(2)))
   | "MP" -> out ef (M.moderate_path c t bt f b (number a.(0) a.(1) a.(2)))
